@@ -3,6 +3,7 @@
 Decides: attribute-name table agreement between Cookie::write and Cookie::fromRaw (each name mapped to the same member),
 bounded reads in cookie.cc, keyed keep-first insertion into the jar and jar clearing before a Cookie header is re-parsed.
 Equality of the parsed cookie, iteration and rejection of every malformed text are value-level and not decided."""
+import re
 from .. import cfg, lib, facts, tables
 from ..facts import AnalysisBroken, strip_tmpl
 
@@ -58,6 +59,19 @@ def run(ck):
         mem = (args[-1].get("t") or "").rsplit("::", 1)[-1]
         if isinstance(lit, str) and lit.startswith("s:"):
             rmap[lit[2:]] = mem
+    if not rmap:
+        # table-driven reader: a namespace-scope table whose rows are {"Name", length, lambda}, each lambda forwarding to
+        # match_attribute with the member pointer.  Rows and lambdas are paired by their order in the file.
+        for v in prog.vars:
+            if not (v.get("file") or "").endswith("/common/cookie.cc"):
+                continue
+            lits = re.findall(r'\{\s*"([^"]+)"\s*,', v.get("init") or "")
+            lams_ = sorted([g for g in prog.funcs.values() if g.is_lambda and g.file == v.get("file") and g.parent not in prog.funcs and g.line >= (v.get("line") or 0) and
+                            any(strip_tmpl(c_.get("callee") or "").endswith("::match_attribute") for c_ in g.events("call"))], key=lambda g: (g.line, g.id))
+            if lits and len(lits) == len(lams_):
+                for lit_, g in zip(lits, lams_):
+                    for c_ in g.calls(lambda c_: strip_tmpl(c_.get("callee") or "").endswith("::match_attribute")):
+                        rmap[lit_] = ((c_.get("args") or [{}])[-1].get("t") or "").rsplit("::", 1)[-1]
     ck.require(len(rmap) >= 6, "match_attribute calls found in Cookie::fromRaw: %s" % rmap)
     for mem, name in sorted(wmap.items()):
         got = rmap.get(name)
